@@ -1574,6 +1574,20 @@ release_2:
   }
 #endif /* COAP_CLIENT_SUPPORT */
 
+  /*
+   * A Confirmable sent from inside this call after the send queue was looked
+   * at above (a keepalive ping) is in the send queue now: the returned timeout
+   * must not go past its retransmission time.
+   */
+  nextpdu = coap_peek_next(ctx);
+  if (nextpdu) {
+    coap_tick_t due = ctx->sendqueue_basetime + nextpdu->t;
+
+    s_timeout = due > now ? due - now : 1;
+    if (timeout == 0 || s_timeout < timeout)
+      timeout = s_timeout;
+  }
+
   return (unsigned int)((timeout * 1000 + COAP_TICKS_PER_SECOND - 1) / COAP_TICKS_PER_SECOND);
 }
 
